@@ -25,7 +25,12 @@ if not os.path.exists(PY):
 sys.path.insert(0, ROOT)
 from props import plans  # noqa: E402  (pure python)
 
-HARD_LIMIT = {"quick": 300, "thorough": 2700}
+# Exploration is time-boxed: when the main phase has used its budget (a machine
+# under load), no further chunk of runs is handed out and the check reports on
+# what was explored (evidence: runs < planned, "truncated_by_time_budget").  A
+# batch that makes no progress for much longer is a hang: harness error.
+TIME_BUDGET = {"quick": 240, "thorough": 2400}
+HARD_LIMIT = {"quick": 1500, "thorough": 9000}
 
 
 def log(*a):
@@ -155,7 +160,8 @@ class Pool:
             self.close(kill=True)
             raise RuntimeError(self.errors[0])
 
-    def map_runs(self, prop, tier, batch_seed, indices, sample, on_result, deadline, chunk=8):
+    def map_runs(self, prop, tier, batch_seed, indices, sample, on_result, deadline, chunk=8, soft_deadline=None):
+        self.truncated = False
         q = queue.Queue()
         idx = list(indices)
         for k in range(0, len(idx), chunk):
@@ -168,6 +174,10 @@ class Pool:
                 while True:
                     if time.time() > deadline:
                         errors.append("timeout")
+                        return
+                    if soft_deadline is not None and time.time() > soft_deadline:
+                        if not q.empty():
+                            self.truncated = True
                         return
                     try:
                         part = q.get_nowait()
@@ -307,6 +317,7 @@ def run_check(prop, tier, batch_seed, jobs, runs=None, verbose=False):
     plan = plans.PLANS[prop]
     total = runs if runs is not None else plan[tier]
     deadline = t0 + HARD_LIMIT[tier] * (4 if os.environ.get("VERIF_NO_LIMIT") else 1)
+    soft = t0 + TIME_BUDGET[tier] * float(os.environ.get("VERIF_TIME_BUDGET_FACTOR", "1"))
     log("check %s tier=%s VERIF_SEED=%d runs=%d workers=%d" % (prop, tier, batch_seed, total, jobs))
     ext = ensure_build()
     if ext is None:
@@ -322,8 +333,12 @@ def run_check(prop, tier, batch_seed, jobs, runs=None, verbose=False):
         log("HARNESS-ERROR " + str(e)[-3000:])
         return 2
     status = 0
+    soft = soft + (time.time() - t0)  # the budget starts when the workers are up
     try:
-        errs = pool.map_runs(prop, tier, batch_seed, range(total), sample, agg.add, deadline)
+        errs = pool.map_runs(prop, tier, batch_seed, range(total), sample, agg.add, deadline, soft_deadline=soft)
+        truncated = pool.truncated
+        if truncated:
+            log("note: time budget of %d s used up after %d of %d planned runs (machine under load?); reporting on the runs executed" % (TIME_BUDGET[tier], agg.n, total))
         if errs:
             log("HARNESS-ERROR " + "; ".join(errs)[-3000:])
             pool.close(kill=True)
@@ -339,6 +354,7 @@ def run_check(prop, tier, batch_seed, jobs, runs=None, verbose=False):
         # ---- determinism self-test (+ cross-hash-seed re-execution) ----
         n_det = plans.DETERMINISM_SAMPLE[tier]
         det_idx = sorted(set(derive(batch_seed, prop, "det", k) % total for k in range(n_det)) | set(agg.recheck))
+        det_idx = [i for i in det_idx if i in agg.digests]  # executed in the main phase
         agg2 = Aggregate()
         pool2 = None
         nondet = []
@@ -346,7 +362,7 @@ def run_check(prop, tier, batch_seed, jobs, runs=None, verbose=False):
         if det_idx:
             try:
                 pool2 = Pool(max(1, min(jobs // 2 or 1, len(det_idx))), h2)
-                errs = pool2.map_runs(prop, tier, batch_seed, det_idx, set(), agg2.add, deadline, chunk=4)
+                errs = pool2.map_runs(prop, tier, batch_seed, det_idx, set(), agg2.add, deadline, chunk=4, soft_deadline=time.time() + TIME_BUDGET[tier] / 2)
             except RuntimeError as e:
                 errs = [str(e)]
             if errs:
@@ -436,6 +452,8 @@ def write_evidence(prop, tier, seed, agg, agg2, wall, wall_main, total, jobs, n_
     per_hour = int(agg.n / max(wall_main, 1e-6) * 3600)
     cov = {
         "evaluations": agg.n,
+        "runs_planned": total,
+        "truncated_by_time_budget": agg.n < total,
         "distinct_nontrivial": len(agg.keys),
         "rule": meta["rule"],
         "samples": agg.samples[:6],
